@@ -1,1 +1,275 @@
-pub fn cmd() -> i32 { 2 }
+//! `vsim selftest`: differential check of the independent decoders (vcommon::decoders) against
+//! `llvm-mc --disassemble` for every instruction form they recognise, over a golden list and a
+//! seeded sample of field values.  A disagreement is a *harness* fault (exit 2), never a
+//! violation of a property.
+
+use std::io::Write;
+use std::process::{Command, Stdio};
+use vcommon::decoders::*;
+
+struct Buf(Vec<u8>);
+impl Mem for Buf {
+    fn byte(&self, a: u64) -> u8 {
+        self.0.get(a as usize).copied().unwrap_or(0)
+    }
+}
+
+fn llvm_mc(triple: &str, bytes: &[u8], extra: &[&str]) -> Option<Vec<String>> {
+    let exe = ["llvm-mc-14", "llvm-mc"].iter().find(|e| Command::new(e).arg("--version").stdout(Stdio::null()).stderr(Stdio::null()).status().is_ok())?;
+    let mut c = Command::new(exe);
+    c.arg("--disassemble").arg(format!("--triple={triple}"));
+    for e in extra {
+        c.arg(e);
+    }
+    let mut ch = c.stdin(Stdio::piped()).stdout(Stdio::piped()).stderr(Stdio::null()).spawn().ok()?;
+    let txt: String = bytes.iter().map(|b| format!("{b:#04x} ")).collect();
+    ch.stdin.take()?.write_all(txt.as_bytes()).ok()?;
+    let out = ch.wait_with_output().ok()?;
+    let s = String::from_utf8_lossy(&out.stdout).to_string();
+    Some(s.lines().map(|l| l.trim().replace('\t', " ")).filter(|l| !l.is_empty() && !l.starts_with('.')).collect())
+}
+
+fn num(s: &str) -> Option<i128> {
+    let s = s.trim().trim_start_matches('#');
+    let (neg, s) = if let Some(r) = s.strip_prefix('-') { (true, r) } else { (false, s) };
+    let v = if let Some(h) = s.strip_prefix("0x") { i128::from_str_radix(h, 16).ok()? } else { s.parse::<i128>().ok()? };
+    Some(if neg { -v } else { v })
+}
+
+/// canonical form of one llvm-mc line for the forms we care about
+fn canon_llvm_a64(l: &str) -> String {
+    let l = l.replace(',', " ");
+    let t: Vec<&str> = l.split_whitespace().collect();
+    match t.as_slice() {
+        ["b", off] => format!("b {}", num(off).unwrap_or(i128::MAX)),
+        ["nop"] => "nop".into(),
+        ["mov", rd, imm] if rd.starts_with('x') && imm.starts_with('#') => format!("movz {rd} {}", num(imm).unwrap_or(-1)),
+        ["mov", rd, imm] if rd.starts_with('w') && imm.starts_with('#') => format!("movzw {rd} {}", num(imm).unwrap_or(-1)),
+        ["movz", rd, imm] => format!("{} {rd} {}", if rd.starts_with('w') { "movzw" } else { "movz" }, num(imm).unwrap_or(-1)),
+        ["movz", rd, imm, "lsl", sh] => format!("{} {rd} {}", if rd.starts_with('w') { "movzw" } else { "movz" }, num(imm).unwrap_or(-1) << num(sh).unwrap_or(0)),
+        ["movk", rd, imm] => format!("movk {rd} {} 0", num(imm).unwrap_or(-1)),
+        ["movk", rd, imm, "lsl", sh] => format!("movk {rd} {} {}", num(imm).unwrap_or(-1), num(sh).unwrap_or(0)),
+        ["adrp", rd, off] => format!("adrp {rd} {}", num(off).unwrap_or(i128::MAX)),
+        ["add", rd, rn, imm] => format!("add {rd} {rn} {}", num(imm).unwrap_or(-1)),
+        ["add", rd, rn, imm, "lsl", sh] => format!("add {rd} {rn} {}", num(imm).unwrap_or(-1) << num(sh).unwrap_or(0)),
+        ["br", rn] => format!("br {rn}"),
+        ["ret"] => "ret x30".into(),
+        ["ret", rn] => format!("ret {rn}"),
+        other => format!("? {}", other.join(" ")),
+    }
+}
+
+fn canon_mine_a64(w: u32) -> String {
+    let mut b = vec![0u8; 16];
+    b[8..12].copy_from_slice(&w.to_le_bytes());
+    let o = a64_run(&Buf(b), 8, 1);
+    let t = o.trace.first().cloned().unwrap_or_default();
+    // trace looks like "0x8: movz x9, #0x1234, lsl #16"
+    let body = t.splitn(2, ": ").nth(1).unwrap_or("").replace(',', " ");
+    let f: Vec<&str> = body.split_whitespace().collect();
+    match f.as_slice() {
+        ["b", dst] => format!("b {}", num(dst).unwrap_or(0) - 8),
+        ["nop"] => "nop".into(),
+        ["movz", rd, imm, "lsl", sh] => format!("{} {rd} {}", if rd.starts_with('w') { "movzw" } else { "movz" }, num(imm).unwrap_or(-1) << num(sh).unwrap_or(0)),
+        ["movk", rd, imm, "lsl", sh] => format!("movk {rd} {} {}", num(imm).unwrap_or(-1), num(sh).unwrap_or(0)),
+        ["adrp", rd, val] => format!("adrp {rd} {}", num(val).unwrap_or(0)),
+        ["add", rd, rn, imm] => format!("add {rd} {rn} {}", num(imm).unwrap_or(-1)),
+        ["br", rn] => format!("br {rn}"),
+        ["ret", rn] => format!("ret {rn}"),
+        other => format!("? {}", other.join(" ")),
+    }
+}
+
+pub fn cmd() -> i32 {
+    let seed = vcommon::seed();
+    let mut rng = seed;
+    let mut next = move || {
+        rng = vcommon::mix(rng, 0x5E1F);
+        rng
+    };
+    let mut faults: Vec<String> = vec![];
+    let mut checked = 0u64;
+    // ---------------- A64
+    let mut words: Vec<u32> = vec![0xD503201F, 0x14000000, 0x17FFFFFF, 0x16000000, 0x15FFFFFF, 0xD61F0120, 0xD61F0200, 0xD65F03C0, 0xD2800000, 0xD2FFFFE9, 0xF2A00029, 0xF2FFFFF1, 0x52800020, 0x52800000, 0x90000010, 0x9000001F & !0x1F | 16, 0x91000210, 0x913FFE10, 0xF0FFFFF0, 0xB0000010];
+    for _ in 0..3000 {
+        let r = next();
+        let rd = 9 + (r % 9) as u32;
+        let imm16 = ((r >> 8) & 0xFFFF) as u32;
+        let hw = ((r >> 24) & 3) as u32;
+        words.push(match (r >> 28) % 7 {
+            0 => 0x14000000 | ((r >> 32) as u32 & 0x03FF_FFFF),
+            1 => 0xD2800000 | hw << 21 | imm16 << 5 | rd,
+            2 => 0xF2800000 | hw << 21 | imm16 << 5 | rd,
+            3 => 0x90000000 | (((r >> 32) as u32 & 3) << 29) | (((r >> 34) as u32 & 0x7FFFF) << 5) | rd,
+            4 => 0x91000000 | ((imm16 & 0xFFF) << 10) | rd << 5 | rd,
+            5 => 0xD61F0000 | rd << 5,
+            _ => 0x52800000 | ((hw & 1) << 21) | imm16 << 5 | (r % 3) as u32,
+        });
+    }
+    let bytes: Vec<u8> = words.iter().flat_map(|w| w.to_le_bytes()).collect();
+    match llvm_mc("aarch64", &bytes, &[]) {
+        None => {
+            println!("selftest: llvm-mc not available; decoders could not be cross-checked");
+            return 3;
+        }
+        Some(lines) => {
+            if lines.len() != words.len() {
+                faults.push(format!("A64: llvm-mc printed {} lines for {} words", lines.len(), words.len()));
+            } else {
+                for (w, l) in words.iter().zip(&lines) {
+                    checked += 1;
+                    let a = canon_llvm_a64(l);
+                    let mut b = canon_mine_a64(*w);
+                    // adrp: llvm prints the page offset, mine the absolute value for pc=8 (page 0)
+                    if a.starts_with("adrp") {
+                        let t: Vec<&str> = b.split_whitespace().collect();
+                        if t.len() == 3 {
+                            let v = num(t[2]).unwrap_or(0);
+                            let v = if v >= (1i128 << 63) { v - (1i128 << 64) } else { v };
+                            b = format!("adrp {} {}", t[1], v);
+                        }
+                    }
+                    // numbers are compared modulo 2^64 (llvm-mc prints signed values)
+                    let modnorm = |s: &str| -> String {
+                        s.split_whitespace().map(|t| match t.parse::<i128>() { Ok(v) => if s.starts_with("movzw") { (v as u32 as u64).to_string() } else { (v as u64).to_string() }, Err(_) => t.to_string() }).collect::<Vec<_>>().join(" ")
+                    };
+                    if modnorm(&a) != modnorm(&b) {
+                        faults.push(format!("A64 {w:#010x}: llvm-mc `{l}` => `{a}`, decoder => `{b}`"));
+                    }
+                }
+            }
+        }
+    }
+    // ---------------- A32
+    let a32: Vec<u32> = {
+        let mut v = vec![0xE51F9000u32, 0xE12FFF19, 0xE51FF004, 0xE59FC000, 0xE12FFF1C, 0xE51FC004, 0xE59F9004];
+        for _ in 0..500 {
+            let r = next();
+            let rt = (r % 13) as u32;
+            v.push(if r & 1 == 0 { 0xE51F0000 | ((r >> 8) as u32 & 1) << 23 | rt << 12 | ((r >> 16) as u32 & 0xFFF) } else { 0xE12FFF10 | rt });
+        }
+        v
+    };
+    let bytes: Vec<u8> = a32.iter().flat_map(|w| w.to_le_bytes()).collect();
+    if let Some(lines) = llvm_mc("armv7", &bytes, &[]) {
+        for (w, l) in a32.iter().zip(&lines) {
+            checked += 1;
+            let mut b = vec![0u8; 64];
+            b[16..20].copy_from_slice(&w.to_le_bytes());
+            let o = arm_run(&Buf(b), 16, ArmState::A32, 1);
+            let mine = o.trace.first().cloned().unwrap_or_else(|| format!("{:?}", o.end));
+            let mine_body = mine.splitn(2, ": ").nth(1).unwrap_or("").split(" ;").next().unwrap_or("").to_string();
+            let norm = |s: &str| s.replace(' ', "").replace("r15", "pc").replace("[pc]", "[pc,#0]").replace("#-0]", "#0]").replace("#-0", "#0");
+            let lnorm = norm(l);
+            if norm(&mine_body) != lnorm {
+                faults.push(format!("A32 {w:#010x}: llvm-mc `{l}`, decoder `{mine_body}`"));
+            }
+        }
+    }
+    // ---------------- T32 (16-bit forms + ldr.w literal)
+    let mut t16: Vec<u8> = vec![];
+    let mut expect: Vec<String> = vec![];
+    let mut halves: Vec<Vec<u16>> = vec![vec![0x4F00], vec![0x4738], vec![0x46C0], vec![0xBF00], vec![0xF8DF, 0xC004], vec![0x4760], vec![0xF8DF, 0xF000], vec![0xF85F, 0xC008]];
+    for _ in 0..500 {
+        let r = next();
+        halves.push(match r % 3 {
+            0 => vec![0x4800 | (((r >> 8) & 7) as u16) << 8 | ((r >> 16) & 0xFF) as u16],
+            1 => vec![0x4700 | (((r >> 8) % 13) as u16) << 3],
+            _ => vec![0xF85F | (((r >> 8) & 1) as u16) << 7, (((r >> 12) % 13) as u16) << 12 | ((r >> 20) & 0xFFF) as u16],
+        });
+    }
+    for h in &halves {
+        let mut b = vec![0u8; 64];
+        let mut p = 16;
+        for x in h {
+            b[p..p + 2].copy_from_slice(&x.to_le_bytes());
+            t16.extend_from_slice(&x.to_le_bytes());
+            p += 2;
+        }
+        let o = arm_run(&Buf(b), 16, ArmState::T32, 1);
+        let mine = o.trace.first().cloned().unwrap_or_else(|| format!("{:?}", o.end));
+        expect.push(mine.splitn(2, ": ").nth(1).unwrap_or("").split(" ;").next().unwrap_or("").to_string());
+    }
+    if let Some(lines) = llvm_mc("thumbv7", &t16, &[]) {
+        if lines.len() != expect.len() {
+            faults.push(format!("T32: llvm-mc printed {} lines for {} instructions", lines.len(), expect.len()));
+        } else {
+            for ((h, l), mine) in halves.iter().zip(&lines).zip(&expect) {
+                checked += 1;
+                let norm = |s: &str| s.replace(' ', "").replace("movr8,r8", "nop").replace("r15", "pc").replace("[pc]", "[pc,#0]").replace("#-0]", "#0]");
+                if norm(mine) != norm(l) {
+                    faults.push(format!("T32 {h:04x?}: llvm-mc `{l}`, decoder `{mine}`"));
+                }
+            }
+        }
+    }
+    // ---------------- x86-64
+    let mut xs: Vec<Vec<u8>> = vec![vec![0xC3], vec![0xFF, 0xE0], vec![0xE9, 0x10, 0, 0, 0], vec![0xE9, 0xFB, 0xFF, 0xFF, 0xFF], vec![0x48, 0xC7, 0xC0, 1, 0, 0, 0], vec![0xB8, 5, 0, 0, 0], vec![0x48, 0xB8, 1, 2, 3, 4, 5, 6, 7, 8]];
+    for _ in 0..500 {
+        let r = next();
+        xs.push(match r % 4 {
+            0 => {
+                let mut v = vec![0xE9];
+                v.extend_from_slice(&((r >> 8) as u32).to_le_bytes());
+                v
+            }
+            1 => {
+                let mut v = vec![0x48, 0xB8];
+                v.extend_from_slice(&next().to_le_bytes());
+                v
+            }
+            2 => {
+                let mut v = vec![0x48, 0xC7, 0xC0];
+                v.extend_from_slice(&((r >> 8) as u32).to_le_bytes());
+                v
+            }
+            _ => {
+                let mut v = vec![0xB8];
+                v.extend_from_slice(&((r >> 8) as u32).to_le_bytes());
+                v
+            }
+        });
+    }
+    let flat: Vec<u8> = xs.iter().flatten().copied().collect();
+    if let Some(lines) = llvm_mc("x86_64", &flat, &["--output-asm-variant=1"]) {
+        if lines.len() != xs.len() {
+            faults.push(format!("x86: llvm-mc printed {} lines for {} instructions", lines.len(), xs.len()));
+        } else {
+            for (b, l) in xs.iter().zip(&lines) {
+                checked += 1;
+                let mut mem = vec![0u8; 64];
+                mem[16..16 + b.len()].copy_from_slice(b);
+                let o = x86_follow(&Buf(mem), 16, &[], 1);
+                let mine = o.trace.first().cloned().unwrap_or_default();
+                let body = mine.splitn(2, ": ").nth(1).unwrap_or("").to_string();
+                let t: Vec<&str> = l.split_whitespace().collect();
+                let ok = match t.as_slice() {
+                    ["ret"] | ["retq"] => body == "ret",
+                    ["jmp", "rax"] => body == "jmp rax",
+                    ["jmp", rel] => {
+                        // llvm prints the rel32 displacement; mine prints the destination for pc=16
+                        let rel = num(rel).unwrap_or(i128::MAX);
+                        let dst = (16i128 + 5 + rel) as u64;
+                        body == format!("jmp {dst:#x}")
+                    }
+                    ["movabs", "rax,", imm] => body == format!("movabs rax, {:#x}", num(imm).unwrap_or(-1) as u64),
+                    ["mov", "rax,", imm] => body == format!("mov rax, {:#x}", num(imm).unwrap_or(0) as i64 as u64),
+                    ["mov", "eax,", imm] => body == format!("mov eax, {:#x}", num(imm).unwrap_or(-1) as u64 & 0xFFFF_FFFF),
+                    _ => false,
+                };
+                if !ok {
+                    faults.push(format!("x86 {b:02x?}: llvm-mc `{l}`, decoder `{body}`"));
+                }
+            }
+        }
+    }
+    println!("selftest: {checked} encodings cross-checked against llvm-mc, {} disagreement(s)", faults.len());
+    for f in faults.iter().take(12) {
+        println!("  {f}");
+    }
+    if faults.is_empty() {
+        0
+    } else {
+        2
+    }
+}
